@@ -407,15 +407,6 @@ structure Wave where
 
 def Wave.len (w : Wave) : Nat := sumN (w.blocks.map Blk.len)
 
-/-- exact evaluation of a block where the model can do it (ramp, zeros, raw) -/
-def Blk.eval? : Blk → Option (List Rat)
-  | .raw xs => some xs
-  | .call fn args sr n =>
-    match fn.shape, args with
-    | .ramp, [.num a, .num b] => some ((List.range n).map (fun k => Gen.ramp a b sr ((n : Int) : Rat) k))
-    | .zeros, _ => some (List.replicate n 0)
-    | _, _ => none
-
 def Wave.eval? (w : Wave) : Option (List Rat) :=
   match w.filt with
   | some _ => none
